@@ -1,26 +1,3 @@
-def kahn_flags(st, role="unvisited"):
-    """The loop-carried `unvisited` flags of kahn mentioned on the path (the variable is identified by its role in the
-    recognised loop, loop_specs.KAHN_ROLES, not by its name)."""
-    import loop_specs
-    wanted = {roles[role].t for roles in loop_specs.KAHN_ROLES.values() if isinstance(roles.get(role), VSeq)}
-    out = set()
-
-    def walk_t(t):
-        if isinstance(t, tuple):
-            if t in wanted:
-                out.add(t)
-            for x in t:
-                walk_t(x)
-        elif isinstance(t, Poly):
-            for a in t.atoms():
-                walk_t(a)
-    for k, p in st.lin.facts:
-        walk_t(p)
-    for t in st.bnd:
-        walk_t(t)
-    return out
-
-
 """The oracle: declared result shapes (ENS), acceptance conditions (ACC) and rejection
 conditions (REJ) of the public operations, written from the property statements and the crate
 documentation — never from the implementation's output.  Checked on every symbolic outcome of
@@ -1455,7 +1432,7 @@ def native_functor_guard(c, a, st, v):
         nodes_t, adj = h.f["nodes"].t, h.f["adjacency"].t
         conds = [("eq", t_len(q0), 0)]
         # the accumulated diagram of the image-accumulation loop, whatever the local is called
-        leaves = loopvar_leaves(st, "lax::functor::traits::map_operations", None)
+        leaves = loopvar_leaves(st, "lax::functor::traits::", None)
         for leg in ("sources", "targets"):
             for lf in leaves:
                 if lf[1][-1] == leg and len(lf[1]) == 3:
@@ -1493,7 +1470,7 @@ def native_functor_guard(c, a, st, v):
              f"segment sizes ≡ lens(nodes, F(label)): got {show_term(got_sizes)[:200]}", sizes_ok, st, actual=got_sizes)
         # the node labels of the operation images are the functor's own (arbitrary): a witness that selects among
         # them is wrong for some functor — that is a violation, not an imprecision of the analysis
-        into_images = _mentions_loopvar(got_labels, "lax::functor::traits::map_operations")
+        into_images = _mentions_loopvar(got_labels, "lax::functor::traits::")
         c.ob("ENS", "witness: the related output nodes carry the labels F(label of i), in order",
              f"gather(result nodes, witness values) ≡ flat(nodes, F(label)): got {show_term(got_labels)[:300]}"
              + (" (selects nodes of the operation images)" if into_images else ""),
@@ -1518,7 +1495,7 @@ def _walk_terms(st, visit):
 def _mentions_loopvar(t, fn_suffix):
     if isinstance(t, tuple):
         if len(t) >= 2 and t[0] == "loopvar" and isinstance(t[1], tuple) and t[1] and isinstance(t[1][0], str) \
-                and t[1][0].endswith(fn_suffix):
+                and (t[1][0].endswith(fn_suffix) or (fn_suffix.endswith("::") and fn_suffix in t[1][0])):
             return True
         return any(_mentions_loopvar(x, fn_suffix) for x in t)
     if isinstance(t, Poly):
@@ -1532,7 +1509,8 @@ def loopvar_leaves(st, fn_suffix, var):
 
     def visit(t):
         if len(t) == 2 and t[0] == "v" and isinstance(t[1], tuple) and t[1] and t[1][0] == "loopvar" \
-                and isinstance(t[1][1], tuple) and t[1][1][0].endswith(fn_suffix) and (var is None or t[1][1][-1] == var):
+                and isinstance(t[1][1], tuple) and (t[1][1][0].endswith(fn_suffix) or (fn_suffix.endswith("::") and fn_suffix in t[1][1][0])) \
+                and (var is None or t[1][1][-1] == var):
             out.add(t)
     _walk_terms(st, visit)
     return sorted(out, key=repr)
@@ -1555,14 +1533,16 @@ def functor_keys(st):
     return sorted(out, key=repr)
 
 
-def kahn_flags(st, name="unvisited"):
-    """The loop-carried `unvisited` flags of kahn (leaf terms named by the loop variable)."""
+def kahn_flags(st, role="unvisited"):
+    """The loop-carried `unvisited` flags of kahn mentioned on the path (the variable is identified by its role in the
+    recognised loop, loop_specs.KAHN_ROLES, not by its name)."""
+    import loop_specs
+    wanted = {roles[role].t for roles in loop_specs.KAHN_ROLES.values() if isinstance(roles.get(role), VSeq)}
     out = set()
 
     def walk_t(t):
         if isinstance(t, tuple):
-            if t and t[0] == "v" and isinstance(t[1], tuple) and t[1] and t[1][0] == "loopvar" \
-                    and isinstance(t[1][1], tuple) and t[1][1][0].endswith("strict::graph::kahn") and t[1][1][-1] == name:
+            if t in wanted:
                 out.add(t)
             for x in t:
                 walk_t(x)
